@@ -570,6 +570,7 @@ func (g *Global) addrKeys(v ssa.Value, ws *writeSet, depth int) {
 			}
 			name := "G!" + a.Pkg.Pkg.Path() + "." + a.Name()
 			g.regKey(name, s, "global")
+			g.keyInfos[name].GoType = elem.String()
 			ws.keys[name] = true
 		}
 	default:
@@ -584,7 +585,7 @@ func (g *Global) addrKeys(v ssa.Value, ws *writeSet, depth int) {
 			g.cellKeys(pt.Elem(), ws)
 			// in-repo code may have been handed the address of a field or element of that type
 			if g.curInRepo {
-				ws.keys["?ptr:"+sortOf(pt.Elem())] = true
+				ws.keys["?ptr:"+sortOf(pt.Elem())+"|"+pt.Elem().String()] = true
 			}
 		}
 	}
@@ -601,6 +602,7 @@ func (g *Global) fieldKeys(st types.Type, f *types.Var, ws *writeSet) {
 	}
 	name := fieldKeyName(st, f.Name())
 	g.regKey(name, "(Array Int "+fs+")", "field")
+	g.keyInfos[name].GoType = f.Type().String()
 	ws.keys[name] = true
 }
 
@@ -730,7 +732,9 @@ func (g *Global) fnWrites(fn *ssa.Function) (map[string]bool, bool) {
 		// contract with explicit modifies: trust it instead of descending
 		if u := g.unitForLocked(f); u != nil && f != fn && (u.HasMod || u.Trusted || u.Pure) {
 			g.unitModKeys(u, f, res)
-			continue
+			if !u.ModInferred {
+				continue
+			}
 		}
 		if g.isPureLib(f) && f != fn {
 			continue
@@ -999,7 +1003,9 @@ func (g *Global) callWrites(fn *ssa.Function, c *ssa.CallCommon) (map[string]boo
 				res[k] = true
 			}
 			all = all || ws.all
-			return
+			if !u.ModInferred {
+				return
+			}
 		}
 		if g.isPureLib(f) {
 			return
@@ -1022,7 +1028,7 @@ func (g *Global) callWrites(fn *ssa.Function, c *ssa.CallCommon) (map[string]boo
 		return res, all
 	}
 	if c.IsInvoke() {
-		key := "iface:" + shortTypeName(c.Value.Type()) + "." + c.Method.Name()
+		key := ifaceKey(c.Value.Type(), c.Method.Name())
 		if u := g.C.Units[key]; u != nil {
 			ws := &writeSet{keys: map[string]bool{}}
 			g.mu.Lock()
